@@ -424,7 +424,8 @@ def leaf_eval(r):
                 "|".join(c[:5]), vals not in ("(l)", "(l (i 0))", "(l (b x))"), k)
     if s == "reader":
         k, rep, field, data, init, res = c[:6]
-        return (None, res == mv and res != "PANIC", "reader %s rep=%s field=%s data=%s init=%s -> %s (model %s)" % (k, rep, field, data, init, res, mv),
+        ref = c[6] if len(c) > 6 else res
+        return (res == ref, res == mv and res != "PANIC", "reader %s rep=%s field=%s data=%s init=%s -> %s (model %s)" % (k, rep, field, data, init, res, mv),
                 "|".join(c[:5]), len(data) > 3, k)
     if s == "fnstr":
         f, impl, ref = c[:3]
@@ -487,7 +488,7 @@ def run_leaf_property(ctx, spec):
     return E.finish(ctx, level, trusted=KERNEL_TB + spec.get("trusted", []))
 
 
-K32 = ("bool", "int32", "sint32", "sfixed32", "uint32", "fixed32", "float")
+K32 = ("bool", "int32", "sint32", "sfixed32", "uint32", "fixed32", "float", "enum")
 
 
 def check_C13(ctx):
@@ -737,14 +738,21 @@ def check_C12(ctx):
         import shutil
         shutil.rmtree(d2, ignore_errors=True)
         plugin = os.path.join(C.BIN, "protoc-gen-pico")
-        for pkg, v in list(res["results"].items())[:6]:
+        det_runs = 0
+        for pkg, v in list(res["results"].items()):
             if v != "ok":
                 continue
-            driver_out(ctx, ["genrun", plugin, os.path.join(d2, pkg), "paths=source_relative", "%s=%s.proto" % (os.path.join(res["src"], pkg + ".proto"), pkg)])
             a = os.path.join(res["gen"], "fresh", pkg, pkg + ".pico.go")
-            b = os.path.join(d2, pkg, pkg + ".pico.go")
-            if not (os.path.exists(b) and open(a).read() == open(b).read()):
-                findings.append(("nondeterministic", pkg, {"schema": sch.get(pkg), "what": "two plugin runs on the same descriptor produced different sources"}))
+            want = open(a).read()
+            # Go map iteration order needs several runs to show: 12 on the fixed feature set, 4 elsewhere
+            for k in range(12 if pkg in F.fixed_schemas() else 4):
+                driver_out(ctx, ["genrun", plugin, os.path.join(d2, pkg), "paths=source_relative", "%s=%s.proto" % (os.path.join(res["src"], pkg + ".proto"), pkg)])
+                det_runs += 1
+                b = os.path.join(d2, pkg, pkg + ".pico.go")
+                if not (os.path.exists(b) and open(b).read() == want):
+                    findings.append(("nondeterministic", pkg, {"schema": sch.get(pkg), "what": "plugin runs on the same descriptor produced different sources (run %d)" % (k + 2)}))
+                    break
+        ctx.cover["determinism_plugin_runs"] = det_runs
         shutil.rmtree(d2, ignore_errors=True)
     ctx.cover["histograms"]["schemas"] = hist
     ctx.cover["programs_compared_with_model"] = tp_total
@@ -916,6 +924,46 @@ def check_C07(ctx):
                     findings.append({"config": cfg, "root": root, "forbidden": n, "import_path": list(reversed(path))})
             if len(samples) < 4:
                 samples.append({"config": cfg, "root": root, "transitive_imports": len(parent) - 1})
+    # generated code of FRESH schemas (enum size boundaries, every field shape): the emitted packages' import closure
+    fres = fresh_driver(ctx)
+    fresh_pkgs = []
+    if fres.get("gen"):
+        fresh_pkgs = ["storj.io/picobuf/internal/zzverif/fresh/" + k for k, v in fres["results"].items() if v == "ok"]
+        ov = C.write_overlay(fres["gen"])
+        rc, so, se = C.run(["go", "list", "-deps", "-json=ImportPath,Imports,Standard", "-tags", "verif", "-overlay", ov] + fresh_pkgs, cwd=C.REPO, env=C.GOENV, check=False, timeout=600)
+        if rc != 0:
+            problems.append("go list (fresh generated packages) failed: %s" % se[-300:])
+        else:
+            dec, i, pk = json.JSONDecoder(), 0, []
+            while i < len(so):
+                while i < len(so) and so[i].isspace():
+                    i += 1
+                if i >= len(so):
+                    break
+                obj, i = dec.raw_decode(so, i)
+                pk.append(obj)
+            by = {p["ImportPath"]: p for p in pk}
+            for root in fresh_pkgs:
+                total += 1
+                parent, todo = {root: None}, [root]
+                while todo:
+                    n = todo.pop(0)
+                    for imp in by.get(n, {}).get("Imports", []):
+                        if imp not in parent:
+                            parent[imp] = n
+                            todo.append(imp)
+                for n in parent:
+                    pinfo = by.get(n, {})
+                    if n in T.FORBIDDEN or (not pinfo.get("Standard") and not n.startswith("storj.io/picobuf") and n not in ("C", "unsafe")):
+                        path = [n]
+                        while parent[path[-1]] is not None:
+                            path.append(parent[path[-1]])
+                        src = os.path.join(fres.get("src", ""), root.rsplit("/", 1)[1] + ".proto")
+                        findings.append({"config": "fresh", "root": root, "forbidden": n, "import_path": list(reversed(path)),
+                                         "schema": open(src).read() if os.path.exists(src) else ""})
+    elif fres.get("log"):
+        problems.append("fresh generated packages unavailable: " + fres["log"][:300])
+    ctx.cover["fresh_generated_packages"] = len(fresh_pkgs)
     # link-time evidence
     nm_hits = []
     link = os.path.join(C.WORK, "link")
@@ -946,7 +994,7 @@ def check_C07(ctx):
             pass
     ctx.add_cases(total, max(2, total), samples=samples)
     ctx.cover["rule"] = ("`go list -deps` of the 4 runtime and 5 generated packages in both build configurations (plain / -tags verif with the injected hook), "
-                         "checked by a verified closure over the regenerated graph; plus a linked probe referencing every exported function, method and map codec, scanned with go tool nm")
+                         "checked by a verified closure over the regenerated graph; the import closure of every package the plugin emits for the fresh schema set (all field shapes, enums of 17 and 20 values); plus a linked probe referencing every exported function, method and map codec, scanned with go tool nm")
     ctx.cover["explanation"] = ("Verified checker over a graph extracted by `go list`: Theorem C07_plain/C07_verif (closed set + soundness lemma) shows no reachable package is "
                                 "reflect, fmt or outside std/module. The linker's dead-code elimination is toolchain behaviour: observed with go tool nm on a probe binary.")
     for f in findings[:3]:
@@ -969,7 +1017,8 @@ def check_C16(ctx):
         return infra_failure(ctx, level)
     ok, ob, problems = proof_status(ctx, ["C16_sched", "C16_no_shared_mutable_state"])
     exe = os.path.join(C.BIN, "zzverif-race")
-    rc, msg, dt = C.go_build("./internal/zzverif", exe, race=True)
+    fres = fresh_driver(ctx)   # generated types too (picoconv casts, maps, recursion)
+    rc, msg, dt = C.go_build("./internal/zzverif", exe, race=True, gen_root=fres.get("gen") if fres.get("driver") else None)
     if rc != 0:
         ctx.violation("race-build", {"what": "race-instrumented build of the harness failed", "log": msg[-2000:]}, has_input=False, text=msg[-300:])
         return E.finish(ctx, level, trusted=KERNEL_TB)
